@@ -501,7 +501,43 @@ func randFileProto(c *C, idx int) *descriptorpb.FileDescriptorProto {
 	return fdp
 }
 
+// boundarySchemas: hand-written schemas at the edges of the number space.
+func boundarySchemas(c *C) {
+	mk := func(name string, ms bool, ext, res [][2]int32) *descriptorpb.FileDescriptorProto {
+		md := &descriptorpb.DescriptorProto{Name: proto.String("B")}
+		if ms {
+			md.Options = &descriptorpb.MessageOptions{MessageSetWireFormat: proto.Bool(true)}
+		}
+		for _, r := range ext {
+			md.ExtensionRange = append(md.ExtensionRange, &descriptorpb.DescriptorProto_ExtensionRange{Start: proto.Int32(r[0]), End: proto.Int32(r[1])})
+		}
+		for _, r := range res {
+			md.ReservedRange = append(md.ReservedRange, &descriptorpb.DescriptorProto_ReservedRange{Start: proto.Int32(r[0]), End: proto.Int32(r[1])})
+		}
+		return &descriptorpb.FileDescriptorProto{Name: proto.String("verif/boundary_" + name + ".proto"), Syntax: proto.String("proto2"),
+			Package: proto.String("verif.b"), MessageType: []*descriptorpb.DescriptorProto{md}}
+	}
+	cases := []*descriptorpb.FileDescriptorProto{
+		mk("mset_max", true, [][2]int32{{4, math.MaxInt32}}, nil),
+		mk("mset_split", true, [][2]int32{{1000, math.MaxInt32}, {4, 1000}}, [][2]int32{{1, 4}}),
+		mk("mset_end_minint32", true, [][2]int32{{4, math.MinInt32}}, nil),
+		mk("max_valid", false, [][2]int32{{1<<29 - 1, 1 << 29}}, [][2]int32{{1, 1<<29 - 1}}),
+		mk("res_end_minint32", false, nil, [][2]int32{{4, math.MinInt32}}),
+		mk("adjacent", false, [][2]int32{{10, 20}, {30, 40}}, [][2]int32{{20, 30}, {1, 10}, {40, 41}}),
+	}
+	for _, fdp := range cases {
+		fd, err := protodesc.NewFile(fdp, protoregistry.GlobalFiles)
+		if err != nil {
+			c.Hist("boundary-schema-rejected:" + fdp.GetName())
+			continue
+		}
+		c.Hist("boundary-schema-accepted:" + fdp.GetName())
+		checkFile(c, fd, "boundary:"+fdp.GetName())
+	}
+}
+
 func streamRandom(c *C) {
+	boundarySchemas(c)
 	n := c.N(1200, 40000)
 	accepted := 0
 	for i := 0; i < n && !c.Failed(); i++ {
